@@ -842,4 +842,91 @@ theorem chunked_eq_whole (F : Fmt) (WF : Bytes → Prop) (AL : Bytes → Prop) (
     (mode : Mode) (file : Bytes) (hwf : WF file) (k : Nat) (hk : 0 < k) :
     (readAll F true mode file k).flatten = readWhole F file := by
   rw [(readAll_bytes F WF AL L hnil mode file hwf k hk).1, whole_read F WF AL L file hwf]
+
+/-! ### `max_chunk_size`: a cap can only turn a read into an error, never change what is delivered -/
+
+theorem accumulateCap_refines (F : Fmt) (nr : Bool) (file : Bytes) (k cap : Nat) :
+    ∀ (fuel pos : Nat) (acc : Bytes) (fp : Bool),
+      (∀ r, accumulateCap F nr file k cap fuel pos acc fp = .ok r → accumulate F nr file k fuel pos acc fp = some r) ∧
+      (accumulateCap F nr file k cap fuel pos acc fp = .stop → accumulate F nr file k fuel pos acc fp = none) := by
+  intro fuel
+  induction fuel with
+  | zero => intro pos acc fp; simp [accumulateCap, accumulate]
+  | succ fuel ih =>
+    intro pos acc fp
+    simp only [accumulateCap, accumulate]
+    generalize (file.drop pos).take k = raw
+    generalize decide (raw.length < k) = fin
+    by_cases h0 : raw.length = 0
+    · simp only [h0, ↓reduceIte]
+      by_cases hc : (nr && !acc.isEmpty && !fp) = true
+      · simp only [hc, ↓reduceIte]
+        by_cases hcap : (fixEnd F acc).length > cap
+        · simp [hcap]
+        · simp only [hcap, ↓reduceIte]
+          by_cases hcomp : F.complete (fixEnd F acc) = true <;> simp [hcomp]
+      · simp [hc]
+    · simp only [h0, ↓reduceIte]
+      generalize acc ++ (if fin = true then fixEnd F raw else raw) = acc'
+      by_cases hcap : acc'.length > cap
+      · simp [hcap]
+      · simp only [hcap, ↓reduceIte]
+        by_cases hcomp : F.complete acc' = true
+        · simp [hcomp]
+        · simp only [hcomp]; exact ih _ _ _
+
+theorem readChunkCap_refines (F : Fmt) (nr : Bool) (mode : Mode) (file : Bytes) (k cap : Nat) (s : St) :
+    (∀ r, readChunkCap F nr mode file k cap s = .ok r → readChunk F nr mode file k s = some r) ∧
+    (readChunkCap F nr mode file k cap s = .stop → readChunk F nr mode file k s = none) := by
+  have h := accumulateCap_refines F nr file k cap (file.length + 2) s.pos s.carry s.finished
+  unfold readChunkCap readChunk
+  cases hc : accumulateCap F nr file k cap (file.length + 2) s.pos s.carry s.finished with
+  | stop => simp [h.2 hc]
+  | err => simp
+  | ok r =>
+    obtain ⟨chunk, pos', fin⟩ := r
+    simp [h.1 _ hc]
+
+theorem readLoopCap_refines (F : Fmt) (nr : Bool) (mode : Mode) (file : Bytes) (k cap : Nat) :
+    ∀ (fuel : Nat) (s : St) (cs : List Bytes),
+      readLoopCap F nr mode file k cap fuel s = some cs → readLoop F nr mode file k fuel s = cs := by
+  intro fuel
+  induction fuel with
+  | zero => intro s cs h; simp [readLoopCap] at h; simp [readLoop, h]
+  | succ fuel ih =>
+    intro s cs h
+    have hr := readChunkCap_refines F nr mode file k cap s
+    unfold readLoopCap at h
+    unfold readLoop
+    cases hc : readChunkCap F nr mode file k cap s with
+    | stop => rw [hc] at h; simp at h; simp [hr.2 hc, h]
+    | err => rw [hc] at h; simp at h
+    | ok r =>
+      obtain ⟨out, s'⟩ := r
+      rw [hc] at h
+      simp only at h
+      rw [hr.1 _ hc]
+      simp only
+      by_cases he : out.isEmpty = true
+      · simp [he] at h ⊢; first | exact h | exact h.symm
+      · simp only [he, Bool.false_eq_true, ↓reduceIte] at h ⊢
+        cases hl : readLoopCap F nr mode file k cap fuel s' with
+        | none => rw [hl] at h; simp at h
+        | some rest =>
+          rw [hl] at h
+          simp at h
+          rw [ih s' rest hl, h]
+
+/-- **C01.capped_read** — `read_chunks(min_chunk_size=k, max_chunk_size=cap)`: for every format, file,
+chunk size, cap and mode, a capped read that completes delivers exactly the chunks of the uncapped
+read (hence, by `readAll_bytes`, the whole newline-terminated file): the cap can make the read
+refuse, it can never make it lose, duplicate or alter an entry. -/
+theorem capped_read (F : Fmt) (nr : Bool) (mode : Mode) (file : Bytes) (k cap : Nat) (cs : List Bytes)
+    (h : readAllCap F nr mode file k cap = some cs) : cs = readAll F nr mode file k :=
+  (readLoopCap_refines F nr mode file k cap _ _ cs h).symm
+
+/-- a cap below the first entry refuses (non-vacuity of the error branch), a generous one does not -/
+example : readAllCap (Fmt.kLine 1) true .seek [65, 66, 67, 10, 68, 10] 2 3 = none ∧
+    readAllCap (Fmt.kLine 1) true .seek [65, 66, 67, 10, 68, 10] 2 6 = some [[65, 66, 67, 10], [68, 10]] := by decide
+
 end C01
